@@ -186,6 +186,11 @@ func verifNodes(tier int) []JsonNode {
 		jsonArray{jsonArray{jsonNumber(1), jsonNumber(2)}}, jsonArray{jsonArray{jsonNumber(2), jsonNumber(1)}},
 		jsonObject{"a": jsonObject{"b": jsonObject{"c": jsonObject{"x": jsonNumber(1), "y": jsonNumber(2)}}}},
 		jsonObject{"a": jsonObject{"b": jsonObject{"c": jsonObject{"y": jsonNumber(2), "z": jsonNumber(3)}}}},
+		// members of different JSON types that a set must tell apart
+		jsonArray{jsonObject{"a": jsonArray{}}}, jsonArray{jsonObject{"a": jsonString("")}}, jsonArray{jsonObject{"a": jsonObject{}}},
+		jsonArray{jsonObject{"a": jsonNumber(1)}}, jsonArray{jsonArray{jsonString("a"), jsonNumber(1)}}, jsonArray{jsonArray{jsonNumber(1), jsonString("a")}},
+		jsonArray{jsonObject{}}, jsonArray{jsonArray{}}, jsonArray{jsonString("")}, jsonArray{jsonNull(nil)}, jsonArray{jsonArray{jsonArray{}}},
+		jsonArray{jsonNumber(1), jsonObject{}}, jsonArray{jsonArray{}, jsonNumber(1)},
 	)
 	return out
 }
